@@ -4,7 +4,7 @@
  * abstracted, no layer states anything about SHA-256 arithmetic):
  *
  *   L0  compression  f(state, block)               ASSUMED oracle  (verif_compress below)
- *   L1  secp256k1_sha256_transform  n_blocks loop  block i = blocks64 + 64 i            (hash_transform.c)
+ *   L1  secp256k1_sha256_transform  n_blocks loop  block i = blocks64 + 64 i            (hash_transform.c; loop contract in engine/units/C05_hash.py)
  *   L2  secp256k1_sha256_write / _finalize         stream -> block sequence, padding     (hash_write.c, hash_finalize.c)
  *   L3  stream contracts (this file, SHAS_*)       replace L2 in: hmac, tagged           (hash_hmac.c, hash_tagged.c)
  *   L4  hmac contracts (this file, HMACS_*)        replace hmac in: rfc6979              (hash_rfc6979.c)
@@ -100,6 +100,7 @@ __CPROVER_ensures((W_B0 / 64 <= g_cw_blk && g_cw_blk < W_B1 / 64)
     : (g_cw_hit == __CPROVER_old(g_cw_hit) && g_cw_byte == __CPROVER_old(g_cw_byte)))
 __CPROVER_ensures(g_cw_off < W_B1 % 64 ==> hash->buf[g_cw_off] == W_STREAM((W_B1 / 64) * 64 + g_cw_off))
 __CPROVER_ensures(g_c_calls >= __CPROVER_old(g_c_calls) && g_c_calls <= __CPROVER_old(g_c_calls) + 2 && g_c_bad == __CPROVER_old(g_c_bad))
+__CPROVER_ensures((g_c_calls == __CPROVER_old(g_c_calls)) == (W_B1 / 64 == W_B0 / 64))       /* a compression call happens iff a block completes */
 __CPROVER_ensures(hash->s[g_sk] == (g_c_calls == __CPROVER_old(g_c_calls) ? __CPROVER_old(hash->s[g_sk]) : g_c_out[g_sk]))
 __CPROVER_ensures(len == 0 ==> (hash->buf[g_cw_off] == __CPROVER_old(hash->buf[g_cw_off]) && g_c_calls == __CPROVER_old(g_c_calls)))
 ;
@@ -177,7 +178,7 @@ int g_hfin_n; int g_hwe; uint64_t g_hwpos; unsigned g_hkk, g_hdk;
 int g_hk_n; size_t g_hk_len; unsigned char g_hk_byte;
 int g_hw_hit; unsigned char g_hw_byte;
 uint64_t g_hf_len; unsigned char g_hf_cur, g_hf_prev, g_hf_prev2, g_hf_last;
-size_t verif_oi;   /* ghost output index used by the loop invariant of rfc6979_generate (hooks/C05_hash_rfc6979_loop.diff) */
+size_t verif_oi;   /* ghost output index used by the loop invariant of rfc6979_generate (RFC_GEN_LOOP in engine/units/C05_hash.py) */
 #define HMACS_RESET() do { g_hfin_n = 0; g_hk_n = 0; g_hk_len = 0; g_hk_byte = 0; g_hw_hit = 0; g_hw_byte = 0; \
     g_hf_len = 0; g_hf_cur = g_hf_prev = g_hf_prev2 = g_hf_last = 0; } while (0)
 static void secp256k1_hmac_sha256_initialize(const secp256k1_hash_ctx *hash_ctx, secp256k1_hmac_sha256 *hash, const unsigned char *key, size_t keylen)
@@ -212,7 +213,7 @@ __CPROVER_ensures(g_hf_prev2 == (__CPROVER_old(g_hfin_n) == g_hwe - 2 ? out32[g_
 ;
 #endif
 
-/* memcpy model for the hash units that keep memcpy-ing code real (hash_write.c, hash_finalize.c).
+/* memcpy model for the hash units that keep memcpy-ing code real (hash_write.c, hash_finalize.c, hash_rfc6979.c).
  * Measured: with CBMC's built-in model (array_replace of a variable-length array into a struct member) or
  * with a plain byte loop, the symbolic-offset copies into hash->buf from a symbolic-size source cost
  * 10^7 clauses (whole-struct byte_updates + quadratic array-read consistency constraints) and the
